@@ -14,6 +14,10 @@ T = {
          "READ CD over-allocation (3072 B/sector) proved as stated, not judged; READ CAPACITY(10) has no allocation-length field; ATA transfer computation is a hand model tied by exhaustive enumeration of the flag combinations"),
  "C04": ("Lean: DataCompat.compatible_sound (decode_bits with a table that sits on the standard's fields returns the device's values for all in-range values and any trailing bytes) + all_response_tables_conform decided by the kernel on the 66 regenerated response tables; decoder theorems for all values / descriptor counts / trailing bytes: READ CAPACITY 10/16, standard INQUIRY, VPD 00/80/86/B0/B1/B2/B3, PR IN READ KEYS / READ RESERVATION, READ DISC INFORMATION (track, POW), GET LBA STATUS, REPORT LUNS; correspondence: conformant responses of all 24 formats encoded by the Lean oracle, fed to the real parsers, compared with the values sent and with the Lean decoder model",
          "decoder-level theorems are not yet proved for MODE SENSE, VPD 83h, RTPG, READ ELEMENT STATUS, READ FULL STATUS, REPORT PRIORITY, REPORT CAPABILITIES (two readings of the type mask), standard disc information (msb/lsb combination) and READ CD: for those the tables are proved conformant and the decoders are tied by correspondence only; structured responses other than GET LBA STATUS / REPORT LUNS / READ KEYS are composed by the harness from Lean-encoded blocks; Std/DataIn.lean is from knowledge and leaves out the ATA Information VPD page, SOP TransportIDs, designator type 9h, READ CD layouts outside the listed ones"),
+ "C05": ("Lean: all_parameter_tables_conform (36 builder tables well formed and on the standard's fields, kernel-decided on regenerated tables) + parameter_block_sound (encode_dict of in-range values into a zeroed buffer IS the standard's block: every value at the standard's position, all other bits zero, for all values) + _pad4_len laws; correspondence: valid dictionaries for MODE SELECT 6/10 (1-3 pages of every marshallable kind), PERSISTENT RESERVE OUT (basic / SPEC_I_PT with 0..3 TransportIDs / REGISTER AND MOVE, all TransportID kinds, iSCSI name lengths across the padding boundary) and EXTENDED COPY LID1/LID4 (0..5 CSCD descriptors, 0..4 segment descriptors of every implemented type, inline data) through the real constructors; dataout compared byte for byte with the list assembled from Lean-encoded standard blocks, CDB parameter list length read at the standard's position, builder model (Enc.*) tied on the same inputs",
+         "the composition of whole parameter lists (concatenation, length fields) is proved honest only at block level; list-level length bookkeeping (TRANSPORTID PARAMETER DATA LENGTH, descriptor list lengths, MODE DATA LENGTH) is decided by correspondence against the harness-composed expected list; constructibility is observed, not proved; iSCSI names shorter than 16 characters (ADDITIONAL LENGTH < 20) and the reserved MODE DATA LENGTH / PS of MODE SELECT lists are recorded, not judged"),
+ "C06": ("Lean: all_two_way_tables_conform / fully_covered_ok (kernel-decided) + reparse_built (dict->bytes->dict returns the supplied values), rebuild_canonical (bytes->dict->bytes reproduces the standard's structure byte for byte), rmw_only_field_bits (structures differing in one field agree in every other bit) for all values, with the Control mode page / SWP instance of tools/swp.py; correspondence on 16 two-way structures: marshall(unmarshall(b)) == b on canonical oracle responses, unmarshall(marshall(d)) == d, read-modify-write of a random field (same length, re-parse equals the modified dictionary, changed bits = bits in which the values differ), the explicit SWP flip, builder model tie",
+         "theorems are at block (table) level; whole-structure round trips (headers + descriptor lists, designators, TransportIDs) are decided by correspondence; canonical = reserved bits zero, no trailing bytes, no block descriptors, one known mode page, 96-byte standard INQUIRY; VPD pages the library cannot build (00h, B0h, B1h, 89h) are outside the property"),
  "C09": ("Lean theorem isolation for every schedule (any number of threads, any interleaving of constructor / encode / decode actions at attribute-access granularity), witness of the pre-repair design, sequential histories; correspondence incl. two real threads under a deterministic line-level scheduler through all interleavings with <= 2 preemptions",
          "atomicity of attribute access under the GIL is assumed; the shared-state model (per-class CDB length, immutable class layouts) is hand-written and tied by histories and enumerated schedules; every construction of a class uses an opcode of the same group"),
  "C10": ("Lean theorems about the converter model (all widths, alignments, offsets, values, prior contents) + high-volume correspondence of the four converter functions with the model",
@@ -39,7 +43,7 @@ T = {
  "C19": ("Lean theorems: init_device refused iff no (prefix, binding) match, no effect on refusal, exact path/mode/URL/initiator, for all device strings and all four configurations; the import half is decided by exhaustive execution in four fresh interpreters",
          "Python's import machinery is not modelled (enumerated instead); presence of a binding = importable stand-in module"),
  "C17": ("Lean theorems: zero block size refused for all other arguments (guards regenerated from source), ATA refusal iff condition, refused opcode groups for all 256 values, unknown PR IN service actions for all integers; facade-level observation that nothing is sent",
-         "EXTENDED COPY / TransportID refusals are currently decided on the implementation by enumeration of invalid-input classes (their Lean model comes with C05); facade observed through a recording device"),
+         "EXTENDED COPY / TransportID refusals are decided on the implementation by enumeration of invalid-input classes (the Lean builder model Enc.* mirrors them; no theorem yet); facade observed through a recording device"),
 }
 built = sorted(T)
 checks = []
